@@ -23,16 +23,22 @@ def _lit(v):
     return '(XLit %s %s)' % (_z(int(''.join(map(str, digits))) * (-1 if sign else 1)), _z(exp))
 
 
+DIFFUSION_IMPORTS = {'normalize': 'sknetwork.linalg.normalizer', 'get_degrees': 'sknetwork.utils',
+                     'get_adjacency_values': 'sknetwork.utils'}
+METRICS_IMPORTS = {'get_probs': 'sknetwork.utils.check', 'get_adjacency': 'sknetwork.utils.format',
+                   'get_membership': 'sknetwork.utils.membership'}
+
+
 class Tr:
-    def __init__(self, tree):
+    def __init__(self, tree, want=None):
         self.tree = tree
         self.funcs = {n.name: n for n in tree.body if isinstance(n, ast.FunctionDef)}
         self.degree_vars = set()
+        self.want = dict(DIFFUSION_IMPORTS if want is None else want)
         self._check_imports()
 
     def _check_imports(self):
-        want = {'normalize': 'sknetwork.linalg.normalizer', 'get_degrees': 'sknetwork.utils',
-                'get_adjacency_values': 'sknetwork.utils'}
+        want = self.want
         seen = {}
         for n in self.tree.body:
             if isinstance(n, ast.Import):
@@ -56,6 +62,10 @@ class Tr:
         for name in want:
             if name in self.funcs:
                 raise TranslateError('%s is redefined locally' % name)
+        for name in ('normalize', 'get_degrees', 'get_probs', 'get_membership'):
+            if name not in want and (name in self.funcs or any(
+                    isinstance(n, ast.ImportFrom) and any((a.asname or a.name) == name for a in n.names) for n in self.tree.body)):
+                pass    # not used by this unit: calls of it are rejected below (the name is not in self.want)
 
     # ---------------------------------------------------------------- expressions
     def name_of(self, e):
@@ -102,8 +112,25 @@ class Tr:
                 return '(XLen %s)' % self.expr(a)
             if self.is_call(e, 'np', 'ones', 1):
                 return '(XOnes %s)' % self.expr(e.args[0])
-            if isinstance(f, ast.Name) and f.id == 'normalize' and len(e.args) == 1 and not e.keywords:
+            if isinstance(f, ast.Name) and f.id == 'normalize' and 'normalize' in self.want and len(e.args) == 1 and not e.keywords:
                 return '(XNormalize %s)' % self.expr(e.args[0])
+            if isinstance(f, ast.Name) and f.id == 'get_probs' and 'get_probs' in self.want and len(e.args) == 2 and not e.keywords:
+                return '(XProbs %s %s)' % (self.expr(e.args[0]), self.expr(e.args[1]))
+            if isinstance(f, ast.Name) and f.id == 'get_membership' and 'get_membership' in self.want and len(e.args) == 1 \
+                    and not e.keywords:
+                return '(XMembership %s)' % self.expr(e.args[0])
+            m = self.method(e, 'astype', 1)
+            if m and isinstance(m[1][0], ast.Name) and m[1][0].id == 'float':
+                return '(XCopy %s)' % self.expr(m[0])
+            m = self.method(e, 'diagonal')
+            if m:
+                return '(XDiagonal %s)' % self.expr(m[0])
+            m = self.method(e, 'sum')
+            if m:
+                recv = m[0]
+                if isinstance(recv, ast.Attribute) and recv.attr == 'data':      # M.data.sum(): the sum of the stored entries
+                    recv = recv.value
+                return '(XSum %s)' % self.expr(recv)
             m = self.method(e, 'mean')
             if m and isinstance(m[0], ast.Subscript) and isinstance(m[0].slice, ast.Name) and isinstance(m[0].value, ast.Name):
                 return '(XMaskMean (XVar %s) (XVar %s))' % (_cstr(m[0].value.id), _cstr(m[0].slice.id))
@@ -302,3 +329,48 @@ def gen_npdiffusion():
 
 
 FILES = {'NpDiffusion.v': gen_npdiffusion}
+
+
+# ---------------------------------------------------------------------------------------------------------------------
+# clustering/metrics.py: get_modularity (C06)
+# ---------------------------------------------------------------------------------------------------------------------
+MREL = 'sknetwork/clustering/metrics.py'
+M_PROLOGUE = [
+    'adjacency, bipartite = get_adjacency(input_matrix.astype(float))',
+    "if bipartite:\n    if labels_col is None:\n        raise ValueError('For bipartite graphs, you must specify the labels of both rows and columns.')\n"
+    "    else:\n        labels = np.hstack((labels, labels_col))",
+    "if len(labels) != adjacency.shape[0]:\n    raise ValueError('Dimension mismatch between labels and input matrix.')",
+]
+M_EPILOGUE = ['if return_all:\n    return (mod, fit, div)\nelse:\n    return mod']
+
+
+def gen_npmodularity():
+    tree = ast.parse(_src(MREL))
+    tr = Tr(tree, METRICS_IMPORTS)
+    if 'get_modularity' not in tr.funcs:
+        raise TranslateError('get_modularity not found')
+    fn = tr.funcs['get_modularity']
+    params = [a.arg for a in fn.args.args]
+    if params != ['input_matrix', 'labels', 'labels_col', 'weights', 'resolution', 'return_all'] or fn.args.vararg or fn.args.kwarg:
+        raise TranslateError('unexpected signature of get_modularity: %r' % params)
+    body = tr.strip(fn.body)
+    got = [ast.unparse(x) for x in body[:3]]
+    if got != M_PROLOGUE:
+        raise TranslateError('unexpected prologue of get_modularity: %r' % got)
+    if [ast.unparse(x) for x in body[-1:]] != M_EPILOGUE:
+        raise TranslateError('unexpected epilogue of get_modularity: %r' % ast.unparse(body[-1]))
+    core = body[3:-1]
+    out = ['(* generated by harness/translators/npvec.py from %s; do not edit *)' % MREL,
+           'From SKN Require Import Base.Util Model.NpExpr Model.NpVec.',
+           'From Coq Require Import String.',
+           'Local Open Scope string_scope.', '']
+    for var in ('mod', 'fit', 'div'):
+        t = Tr(tree, METRICS_IMPORTS)
+        term = t.block(core, lambda v=var: '(XVar %s)' % _cstr(v))
+        out.append('(* %s: get_modularity, value of `%s` (inputs: adjacency, labels, weights, resolution) *)' % (MREL, var))
+        out.append('Definition src_modularity_%s : vexpr :=\n  %s.' % (var, term))
+        out.append('')
+    return '\n'.join(out)
+
+
+FILES['NpModularity.v'] = gen_npmodularity
